@@ -86,6 +86,10 @@ static Crystal_Struct *cs_build(const char *name, Crystal_Struct *src) {
   return cs;
 }
 
+/* C19 only: with XDRV_CRYSTALS=<path of data/Crystals.dat> the crystal queries are served from a user array read from
+   the data file (full double precision) instead of the built-in table (which src/pr_data.c writes as float literals) */
+static Crystal_Array *carr = NULL;
+
 #define IS(nm, n) (!strcmp(tok[0], nm) && nt == (n) + 2)
 static int dispatch_hand(char **tok, int nt) {
   if (IS("CompoundParser", 1)) {
@@ -104,10 +108,10 @@ static int dispatch_hand(char **tok, int nt) {
   if (IS("Refractive_Index", 3)) { char *s = ps(tok[1]); double E = pd(tok[2]), d = pd(tok[3]); BEGIN(); xrlComplex r = Refractive_Index(s, E, d, &e); pr_d(r.re); pr_d(r.im); END(); return 1; }
   if (IS("Atomic_Factors", 4)) { int Z = atoi(tok[1]); double E = pd(tok[2]), q = pd(tok[3]), df = pd(tok[4]); double f0 = 0, fp = 0, fpp = 0;
     BEGIN(); int r = Atomic_Factors(Z, E, q, df, &f0, &fp, &fpp, &e); pr_i(r); if (r) { pr_d(f0); pr_d(fp); pr_d(fpp); } END(); return 1; }
-  if (IS("Crystal_GetCrystalsList", 0)) { BEGIN(); int n = 0; char **l = Crystal_GetCrystalsList(NULL, &n, &e); if (l) pr_list(l, n); END(); return 1; }
-  if (IS("Crystal_GetCrystal", 1)) { char *s = ps(tok[1]); BEGIN(); Crystal_Struct *c = Crystal_GetCrystal(s, NULL, &e); if (c) { pr_cs(c); Crystal_Free(c); } END(); return 1; }
+  if (IS("Crystal_GetCrystalsList", 0)) { BEGIN(); int n = 0; char **l = Crystal_GetCrystalsList(carr, &n, &e); if (l) pr_list(l, n); END(); return 1; }
+  if (IS("Crystal_GetCrystal", 1)) { char *s = ps(tok[1]); BEGIN(); Crystal_Struct *c = Crystal_GetCrystal(s, carr, &e); if (c) { pr_cs(c); Crystal_Free(c); } END(); return 1; }
   /* crystal queries: the crystal is named; the lookup is part of the call */
-#define WITH_CS(stmt) { char *s = ps(tok[1]); BEGIN(); Crystal_Struct *c = Crystal_GetCrystal(s, NULL, &e); if (c) { stmt; Crystal_Free(c); } END(); return 1; }
+#define WITH_CS(stmt) { char *s = ps(tok[1]); BEGIN(); Crystal_Struct *c = Crystal_GetCrystal(s, carr, &e); if (c) { stmt; Crystal_Free(c); } END(); return 1; }
   if (IS("Bragg_angle", 5)) WITH_CS(pr_d(Bragg_angle(c, pd(tok[2]), atoi(tok[3]), atoi(tok[4]), atoi(tok[5]), &e)))
   if (IS("Q_scattering_amplitude", 6)) WITH_CS(pr_d(Q_scattering_amplitude(c, pd(tok[2]), atoi(tok[3]), atoi(tok[4]), atoi(tok[5]), pd(tok[6]), &e)))
   if (IS("Crystal_F_H_StructureFactor", 7)) WITH_CS(xrlComplex r = Crystal_F_H_StructureFactor(c, pd(tok[2]), atoi(tok[3]), atoi(tok[4]), atoi(tok[5]), pd(tok[6]), pd(tok[7]), &e); pr_d(r.re); pr_d(r.im))
@@ -141,6 +145,11 @@ int main(void) {
   static char line[1 << 16];
   char *tok[64];
   setvbuf(stdout, NULL, _IOFBF, 1 << 16);
+  if (getenv("XDRV_CRYSTALS")) {
+    xrl_error *ie = NULL;
+    carr = Crystal_ArrayInit(128, &ie);
+    if (!carr || !Crystal_ReadFile(getenv("XDRV_CRYSTALS"), carr, &ie)) { printf("cannot read crystals: %s\n", ie ? ie->message : "?"); return 2; }
+  }
   printf("ready\n"); fflush(stdout);
   while (fgets(line, sizeof line, stdin)) {
     int nt = 0;
